@@ -137,3 +137,16 @@ package lossy
 //@ func (enc *VP8Encoder) emitTokenPartitions
 //@   trusted
 //@   ensures enc.width == old(enc.width) && enc.height == old(enc.height) && len(result) == old(enc.numParts)
+//
+// ---- C07 / C04: first-row alpha unfilter is the inverse of the horizontal filter ----
+// (after unfiltering, re-applying the horizontal prediction gives the input back)
+//@ func alphaUnfilterHorizontalRow
+//@   property C07 C04 C05
+//@   modifies row[:]
+//@   loop 0: invariant 1 <= x
+//@   loop 0: invariant forall k int :: 1 <= k && k < x ==> row[k] - row[k-1] == old(row[k])
+//@   loop 0: invariant forall k int :: x <= k && k < len(row) ==> row[k] == old(row[k])
+//@   loop 0: invariant len(row) > 0 ==> row[0] == old(row[0])
+//@   loop 0: decreases len(row) - x
+//@   ensures len(row) > 0 ==> row[0] == old(row[0])
+//@   ensures forall k int :: 1 <= k && k < len(row) ==> row[k] - row[k-1] == old(row[k])
